@@ -90,8 +90,27 @@ Definition escape_ok (e : string * string * string) : bool :=
   existsb (fun a => match a with (p', v', f') =>
              String.eqb p p' && String.eqb v v' && String.eqb f f' end) escape_allow.
 
+(* References INTO a package-level variable that leave it (a pointer / slice / map value read
+   from the variable, or the address of part of it, copied somewhere).  A copy into a local
+   variable is harmless by itself: stores through the local are in pkg_var_writes as
+   elem-via-alias (and must pass pkg_write_ok like any other write); every further hop of the
+   reference (into a field, returned, passed on, into a literal) must be init-only or inspected.
+   Seeded example this closes: a decoder that takes `q := defaultQuantizers[bits]`, keeps it in
+   `dec.quantizer` and later assigns `dec.quantizer.T1` — shared state written through a field. *)
+Definition ref_allow : list (string * string * string * string) :=
+  [ (* uvlc_decoder.go DecodePair: `table = UVLCTbl0[:]` / `UVLCTbl1[:]`, then
+       d.decodeUVLCEntry(table, mode), which only indexes table on right-hand sides *)
+    ("jpeg2000/htj2k", "UVLCTbl0", "(*UVLCDecoder).DecodePair", "via-local:passed");
+    ("jpeg2000/htj2k", "UVLCTbl1", "(*UVLCDecoder).DecodePair", "via-local:passed") ].
+Definition ref_ok (e : string * string * string * string) : bool :=
+  let '(p, v, f, how) := e in
+  String.eqb how "to-local" || is_init_name f || mem2 (p, f) init_only_funcs ||
+  existsb (fun a => match a with (p', v', f', h') =>
+             String.eqb p p' && String.eqb v v' && String.eqb f f' && String.eqb how h' end) ref_allow.
+
 Definition pkg_level_ok : bool :=
-  forallb pkg_write_ok pkg_var_writes && is_nil pkg_ext_writes && forallb escape_ok pkg_var_escapes.
+  forallb pkg_write_ok pkg_var_writes && is_nil pkg_ext_writes && forallb escape_ok pkg_var_escapes
+  && forallb ref_ok pkg_var_refs.
 
 (* the extractor sees every write only if these are absent; time / math/rand would make
    outputs depend on timing *)
@@ -128,7 +147,19 @@ Definition has_kind (ks : list string) (evs : list ev) : bool :=
 Definition codec_receiver_violations : list (string * string * string) :=
   flat_map (fun x => match x with (p, t, c, m, evs) =>
      if String.eqb c "codec" && has_kind write_kinds evs then [(p, t, m)] else [] end) method_events.
-Definition codec_receiver_ok : bool := is_nil codec_receiver_violations.
+(* a reference-typed field of a codec object handed to callers by some method: shared with
+   every caller, so it must be something nobody writes.  Allowed: transferSyntax (pointer to the
+   go-dicom package constant; TransferSyntax() returns it, Encode compares it).
+   Seeded example this closes: a `defaults` parameters object kept in the codec, returned by
+   GetDefaultParameters() and used by Encode(nil). *)
+Definition returned_field_allow : list string := ["transferSyntax"].
+Definition codec_returned_fields : list (string * string * string * string) :=
+  flat_map (fun x => match x with (p, t, c, m, evs) =>
+     if String.eqb c "codec"
+     then map (fun f => (p, t, m, f)) (filter (fun f => negb (mem f returned_field_allow)) (ev_names "T" evs))
+     else [] end) method_events.
+
+Definition codec_receiver_ok : bool := is_nil codec_receiver_violations && is_nil codec_returned_fields.
 
 Definition codec_types : list (string * string) :=
   flat_map (fun x => match x with (p, t, c) => if String.eqb c "codec" then [(p, t)] else [] end) tracked_types.
